@@ -618,8 +618,8 @@ class Ownership:
     pointee is `share_loads` (type objects form a shared graph) and the provenance of the object loaded from otherwise (a member list
     belongs to its type object). Per function the analysis yields
       .stores[(unit, fn)]  = [(record, field | '*', atoms, line)]     stores into objects of a protected record
-      .ret[fn]             = atoms of the values it returns
-      .writes[fn]          = {param index: {(record, field)}} objects reached from a parameter that it (or a callee) modifies
+      .ret[(unit, fn)]     = atoms of the values it returns
+      .writes[(unit, fn)]  = {param index: {(record, field)}} objects reached from a parameter that it (or a callee) modifies
       .calls[(unit, fn)]   = [(callee, param index, {(record, field)}, atoms of the argument, line)] for such callees
     computed as a fixpoint over all functions (recursion included)."""
 
@@ -632,10 +632,12 @@ class Ownership:
         self.share_loads = set(share_loads)
         self.tag_field = tag_field
         self.skip = set(skip_fields)
-        self.fns = {}
+        self.fns = {}                 # (unit name, function name) -> (unit, FunctionDecl); a name may be defined (static) in several units
+        self.by_name = {}
         for u in units:
             for name, fd in u.functions.items():
-                self.fns.setdefault(name, (u, fd))
+                self.fns[(u.name, name)] = (u, fd)
+                self.by_name.setdefault(name, []).append((u.name, name))
         self.ret = {f: frozenset() for f in self.fns}
         self.writes = {f: {} for f in self.fns}
         self.stores, self.calls, self.gaps = {}, {}, {}
@@ -643,12 +645,19 @@ class Ownership:
         for _ in range(40):
             self.rounds += 1
             self.changed = False
-            for name, (u, fd) in self.fns.items():
+            for (un, name), (u, fd) in self.fns.items():
                 self._function(u, name, fd)
             if not self.changed:
                 break
         else:
             raise AnalysisBroken('ownership summaries of the functions do not stabilise')
+
+    def resolve(self, unit_name, name):
+        """key of the definition a call to `name` from `unit_name` reaches (its own unit's first), None if it is not defined in the program"""
+        if (unit_name, name) in self.fns:
+            return (unit_name, name)
+        c = self.by_name.get(name)
+        return c[0] if c else None
 
     # -- types ---------------------------------------------------------------------
     def _pointee(self, n):
@@ -707,11 +716,11 @@ class Ownership:
         self.stores[self.cur] = list(self.f_stores.values())
         self.calls[self.cur] = list(self.f_calls.values())
         self.gaps[self.cur] = list(self.f_gaps.values())
-        r = frozenset(self.f_ret) | self.ret[name]
-        if r != self.ret[name]:
-            self.ret[name] = r
+        r = frozenset(self.f_ret) | self.ret[self.cur]
+        if r != self.ret[self.cur]:
+            self.ret[self.cur] = r
             self.changed = True
-        w = self.writes[name]
+        w = self.writes[self.cur]
         for i, fields in self.f_writes.items():
             if not fields <= w.get(i, set()):
                 w[i] = w.get(i, set()) | fields
@@ -1047,8 +1056,9 @@ class Ownership:
             return vals[0]
         if isptr and any(self._mentions_tags(a) for a in args):
             return frozenset([TAG])
-        if name in self.fns:
-            for i, fields in self.writes[name].items():
+        fk = self.resolve(self.cur[0], name) if name else None
+        if fk is not None:
+            for i, fields in self.writes[fk].items():
                 if i < len(vals):
                     ckey = (name, i)
                     old = self.f_calls.get(ckey)
@@ -1057,7 +1067,7 @@ class Ownership:
                         if isinstance(a, tuple):
                             self.f_writes.setdefault(a[1], set()).update(fields)
             out = set()
-            for a in self.ret[name]:
+            for a in self.ret[fk]:
                 if isinstance(a, tuple):
                     if a[1] < len(vals):
                         out |= vals[a[1]]
